@@ -20,9 +20,9 @@ var (
 
 func scenarios(tier string) []engine.Scenario {
 	var scs []engine.Scenario
-	exhaustDeg, maxDeg := 5, 15
+	exhaustDeg, maxDeg := 5, 31
 	if tier == "thorough" {
-		exhaustDeg, maxDeg = 7, 31
+		exhaustDeg, maxDeg = 7, 63
 	}
 	bound := 1
 	if tier == "thorough" {
@@ -65,6 +65,16 @@ func scenarios(tier string) []engine.Scenario {
 			scs = append(scs, engine.Scenario{Name: name, Bound: 0, Fn: func(c *engine.Chooser) { bgvLeaf(c, name, cfg) }})
 		}
 		add(classLazy, []shape{mkShape("d4/dense", 4, 0x1f), mkShape("d5/dense", 5, 0x3f), mkShape("d7/odd", 7, 0xaa)}, []int{kPolyLazy})
+	}
+	// vectors whose polynomials declare different parities (general / odd / even)
+	{
+		mixedShapes := []shape{mkShape("d3/dense", 3, 0xf), mkShape("d5/dense", 5, 0x3f), mkShape("d6/dense", 6, 0x7f), mkShape("d7/dense", 7, 0xff), mkShape("d9/dense", 9, 0x3ff)}
+		cfgB := &bgvCfg{spec: bgvSmall, shapes: mixedShapes, kinds: []int{kVector0 + len(mappings())}, declareEach: true}
+		nameB := "mixed-declared-parity/bgv-std"
+		scs = append(scs, engine.Scenario{Name: nameB, Bound: 1, Fn: func(c *engine.Chooser) { bgvLeaf(c, nameB, cfgB) }})
+		cfgC := &ckksCfg{spec: ckksA, basis: basisCases[1], shapes: mixedShapes, kinds: []int{kVector0 + len(mappings())}, declareEach: true}
+		nameC := "mixed-declared-parity/ckks-chebyshev"
+		scs = append(scs, engine.Scenario{Name: nameC, Bound: 1, Fn: func(c *engine.Chooser) { ckksLeaf(c, nameC, cfgC) }})
 	}
 	scs = append(scs, ckksScenarios(tier, shapes, bound)...)
 	scs = append(scs, historyScenarios(tier)...)
